@@ -21,7 +21,8 @@ structure StoreSt where
 
 def setErr (st : StoreSt) (m : String) : StoreSt := if st.err.isSome then st else { st with err := some m }
 
-def splitComma (s : String) : List Str := if s == "" || s == "-" then [] else (s.splitOn ",").map unhex
+/-- a comma-separated list of hex-encoded keys; the empty list is the empty string, "-" is ONE empty key -/
+def splitComma (s : String) : List Str := if s == "" then [] else (s.splitOn ",").map unhex
 
 def sortStrsD (l : List Str) : List Str := sortBy strLe l
 
@@ -69,6 +70,10 @@ def storeLine (st : StoreSt) (line : String) : StoreSt :=
   | ["S", "SAMECT", k, same] => if same == "true" then setErr st s!"two writes of the same value of {shw (unhex k)} produced identical file bytes" else st
   | ["S", "TAMPER", "accepted", len, _] => setErr st s!"a modified ciphertext file of {len} bytes was accepted by Get"
   | ["S", "TAMPERSUM", total, _] => { st with tamperTotal := toNat total }
+  | ["S", "NONCES", _, dups, panics] =>
+    if toNat dups > 0 then setErr st s!"{dups} pairs of files written by overlapping Sets start with the same nonce"
+    else if toNat panics > 0 then setErr st s!"{panics} Set call(s) panicked under concurrent use"
+    else st
   | ["S", "WRONGKEY", res, _] => if res == "ok" then setErr st "Get with a wrong key returned data" else st
   | ["S", "NOKEY", leak] => if leak == "true" then setErr st "the raw stored bytes contain the plaintext" else st
   -- C15
